@@ -1089,7 +1089,7 @@ func runContractV1(s *Session) {
 	extend := uint64(t.Range(0, 300))
 	hostAhead := uint64(0) // the host may know of blocks beyond the renewal's end height: such a renewal is late
 	if t.Chance(1, 4) {
-		hostAhead = uint64(t.Range(1, 400))
+		hostAhead = uint64(pick(t, 1, t.Range(1, 4), t.Range(1, 20), t.Range(1, 400))) // by one block, within a proof window, far
 	}
 	expectedNewStorage := uint64(pick(t, 0, 1<<22, 10<<22))
 	if t.Chance(1, 5) {
